@@ -930,3 +930,43 @@ Proof.
     rewrite Hw. destruct d; reflexivity. }
   rewrite Eb. reflexivity.
 Qed.
+
+(** * The in-memory ProcessSigPool and the guard of fix d90db55 *)
+
+(* HgImpl.process_sig has no "index above LastBlockIndex" test: under the block-store invariant the
+   test is redundant there (no block is stored above the last block index), so the model of the
+   running node need not change with the fix; only the database lookup of Bootstrap is affected *)
+Lemma process_sig_guard_redundant st s : binv st ->
+  process_sig st s = if last_block st <? bs_index s then st else process_sig st s.
+Proof.
+  intros OK. destruct (last_block st <? bs_index s) eqn:E; [|reflexivity].
+  unfold process_sig. destruct (zget (bs_index s) (blocks st)) as [b|] eqn:Hb; [|reflexivity].
+  destruct (b_idx st OK _ _ Hb). lia.
+Qed.
+
+(* the code as it stands: unconditional corollaries *)
+Theorem recover_redelivers_cur self_ genesis oracle_ ops k : wf (op_events ops) ->
+  br_db_block (recovered self_ genesis oracle_ ops k) = false /\
+  delivered (br_st (recovered self_ genesis oracle_ ops k)) = delivered (pre_state self_ genesis oracle_ ops k) /\
+  last_block (br_st (recovered self_ genesis oracle_ ops k)) = last_block (pre_state self_ genesis oracle_ ops k).
+Proof. intros W. exact (recover_redelivers true self_ genesis oracle_ ops k W (or_introl eq_refl)). Qed.
+
+Theorem recover_continues_cur all self_ genesis oracle_ ops k ops' :
+  wf all -> incl (op_events ops) all -> incl (op_events ops') all ->
+  let rec := br_st (recovered self_ genesis oracle_ ops k) in
+  let pre := pre_state self_ genesis oracle_ ops k in
+  dag_ok (nrun rec ops') /\ binv (nrun rec ops') /\ simr true (nrun rec ops') (nrun pre ops') /\
+  delivered (nrun rec ops') = delivered (nrun pre ops').
+Proof.
+  intros W I I'. cbv zeta.
+  destruct (recover_continues true all self_ genesis oracle_ ops k ops' W I I') as [D [_ F]].
+  destruct (F (or_introl eq_refl)) as [E B].
+  pose proof (wf_incl _ _ W I) as W0.
+  destruct (recovered_sim true self_ genesis oracle_ ops k W0) as [_ [_ G]].
+  destruct (G (or_introl eq_refl)) as [_ [St Br]].
+  assert (Npre : ninv all (pre_state self_ genesis oracle_ ops k)).
+  { unfold pre_state. apply nrun_ninv; [exact W| |apply ninv_init].
+    eapply incl_tran; [apply incl_op_events_firstn|exact I]. }
+  split; [exact D|]. split; [exact B|]. split; [|exact E].
+  apply nrun_simr; [exact St|]. intros _. split; [exact Br|apply (n_binv _ _ Npre)].
+Qed.
